@@ -28,6 +28,20 @@ type SpecEnv struct {
 	callArgs   []Val
 	inOld      bool
 	clauseSrc  string
+	loop       *loopInfo
+}
+
+// rangeIndex finds the hidden index cell of a `for … range` loop (robust against renaming of the
+// loop variables): the alloc named "rangeindex" that is stored to in the loop head.
+func (li *loopInfo) rangeIndex() *ssa.Alloc {
+	for _, in := range li.head.Instrs {
+		if s, ok := in.(*ssa.Store); ok {
+			if a, ok := s.Addr.(*ssa.Alloc); ok && a.Comment == "rangeindex" {
+				return a
+			}
+		}
+	}
+	return nil
 }
 
 func (fx *FuncExec) specEnv(cur, old *State) *SpecEnv {
@@ -160,11 +174,11 @@ func (fx *FuncExec) evalSpec(env *SpecEnv, e ast.Expr) Val {
 			}
 			return Val{T: base.T, Sort: SSlice, S: fmt.Sprintf("(mkSlice (s.arr %s) (+ (s.off %s) %s) (- %s %s) (- (s.cap %s) %s))", base.S, base.S, lo, hi, lo, base.S, lo)}
 		case SStr:
-			hi = "(str.len " + base.S + ")"
+			hi = "(gs.len " + base.S + ")"
 			if x.High != nil {
 				hi = fx.evalSpec(env, x.High).S
 			}
-			return Val{T: base.T, Sort: SStr, S: fmt.Sprintf("(str.sub %s %s %s)", base.S, lo, hi)}
+			return Val{T: base.T, Sort: SStr, S: fmt.Sprintf("(gs.sub %s %s %s)", base.S, lo, hi)}
 		}
 		fx.specFail(env, "cannot slice sort %s", base.Sort)
 	case *ast.UnaryExpr:
@@ -345,6 +359,23 @@ func (fx *FuncExec) evalIdent(env *SpecEnv, name string) Val {
 		}
 		fx.specFail(env, "`result` used where no result is available")
 	}
+	if name == ghostPrefix+"idx" {
+		if env.loop == nil {
+			fx.specFail(env, "$idx used outside a loop clause")
+		}
+		a := env.loop.rangeIndex()
+		if a == nil {
+			fx.specFail(env, "$idx: loop %s is not a range loop over a slice", env.loop.name)
+		}
+		st := env.cur
+		if env.inOld && env.oldCells != nil {
+			st = env.oldCells
+		}
+		if cv, ok := st.cells[a]; ok {
+			return cv
+		}
+		fx.specFail(env, "$idx: range index not available here")
+	}
 	if strings.HasPrefix(name, "result") {
 		if i, err := strconv.Atoi(name[6:]); err == nil && i < len(env.results) {
 			return env.results[i]
@@ -480,14 +511,16 @@ func (fx *FuncExec) indexVal(env *SpecEnv, base, idx Val) Val {
 		h := fx.heapTerm(st, elemKey(el), arr2Sort(es), el)
 		return Val{T: el, Sort: es, S: sel(sel(h, "(s.arr "+base.S+")"), add("(s.off "+base.S+")", idx.S))}
 	case base.Sort == SStr:
-		return Val{T: types.Typ[types.Byte], Sort: SInt, S: fmt.Sprintf("(str.at %s %s)", base.S, idx.S)}
+		return Val{T: types.Typ[types.Byte], Sort: SInt, S: fmt.Sprintf("(gs.at %s %s)", base.S, idx.S)}
 	case strings.HasPrefix(string(base.Sort), "(Array Int "):
 		inner := strings.TrimSuffix(strings.TrimPrefix(string(base.Sort), "(Array Int "), ")")
 		return Val{Sort: Sort(inner), S: sel(base.S, idx.S)}
 	case base.T != nil:
 		if m, ok := base.T.Underlying().(*types.Map); ok {
-			_, _, _, vh := fx.mapHeaps(st, m)
-			return Val{T: m.Elem(), Sort: fx.em.SortOf(m.Elem()), S: sel(sel(vh, base.S), idx.S)}
+			// Go semantics: the zero value when the key is absent (or the map is nil)
+			_, _, dh, vh := fx.mapHeaps(st, m)
+			present := and(not(eq(base.S, "0")), sel(sel(dh, base.S), idx.S))
+			return Val{T: m.Elem(), Sort: fx.em.SortOf(m.Elem()), S: ite(present, sel(sel(vh, base.S), idx.S), fx.em.Zero(m.Elem()))}
 		}
 	}
 	fx.specFail(env, "cannot index sort %s", base.Sort)
@@ -628,7 +661,7 @@ func (fx *FuncExec) evalSpecCall(env *SpecEnv, x *ast.CallExpr) Val {
 		case v.Sort == SSlice:
 			return Val{T: types.Typ[types.Int], Sort: SInt, S: "(s.len " + v.S + ")"}
 		case v.Sort == SStr:
-			return Val{T: types.Typ[types.Int], Sort: SInt, S: "(str.len " + v.S + ")"}
+			return Val{T: types.Typ[types.Int], Sort: SInt, S: "(gs.len " + v.S + ")"}
 		case v.T != nil:
 			if _, ok := v.T.Underlying().(*types.Map); ok {
 				return Val{T: types.Typ[types.Int], Sort: SInt, S: ite(eq(v.S, "0"), "0", "(map.len "+v.S+")")}
@@ -660,6 +693,21 @@ func (fx *FuncExec) evalSpecCall(env *SpecEnv, x *ast.CallExpr) Val {
 			return bv(fmt.Sprintf("(forall ((%s Int)) %s)", bn, imp(rng, body.S)))
 		}
 		return bv(fmt.Sprintf("(exists ((%s Int)) %s)", bn, and(rng, body.S)))
+	case "forallkey":
+		// forallkey(k, m, P): P holds for every key k present in map m
+		v := x.Args[0].(*ast.Ident).Name
+		m := fx.evalSpec(env, x.Args[1])
+		mt, ok := m.T.Underlying().(*types.Map)
+		if !ok {
+			fx.specFail(env, "forallkey over a non-map")
+		}
+		bn := fmt.Sprintf("%s!%d", v, fx.em.n)
+		fx.em.n++
+		ks := fx.em.SortOf(mt.Key())
+		_, _, dh, _ := fx.mapHeaps(env.state(), mt)
+		e2 := env.with(v, Val{T: mt.Key(), Sort: ks, S: bn})
+		body := fx.evalSpec(e2, x.Args[2])
+		return bv(fmt.Sprintf("(forall ((%s %s)) %s)", bn, ks, imp(and(not(eq(m.S, "0")), sel(sel(dh, m.S), bn)), body.S)))
 	case "held":
 		l := fx.evalLoc(env, x.Args[0])
 		key := fx.locString(l)
@@ -681,8 +729,16 @@ func (fx *FuncExec) evalSpecCall(env *SpecEnv, x *ast.CallExpr) Val {
 		_ = k
 		return bv(fmt.Sprintf("(forall ((%s Int)) (=> (and (<= 0 %s) (< %s %s)) (= %s %s)))", bn, bn, bn, n.S, ea.S, eb.S))
 	case "fresh":
+		// fresh(x): allocated during this call (slices: their backing array; nil slices count as fresh)
 		v := fx.evalSpec(env, x.Args[0])
-		return bv(fmt.Sprintf("(> %s %s)", v.S, env.old.heaps[topKey]))
+		top0 := fx.entry.heaps[topKey]
+		if env.calleeMode {
+			top0 = env.old.heaps[topKey]
+		}
+		if v.Sort == SSlice {
+			return bv(or(fmt.Sprintf("(> (s.arr %s) %s)", v.S, top0), eq("(s.arr "+v.S+")", "0")))
+		}
+		return bv(fmt.Sprintf("(> %s %s)", v.S, top0))
 	case "has":
 		// has(m, k): key present in map
 		m := fx.evalSpec(env, x.Args[0])
@@ -701,7 +757,7 @@ func (fx *FuncExec) evalSpecCall(env *SpecEnv, x *ast.CallExpr) Val {
 		return Val{T: t, Sort: s, S: fx.em.Unbox("(i.val "+v.S+")", s)}
 	case "streq":
 		a, b := fx.evalSpec(env, x.Args[0]), fx.evalSpec(env, x.Args[1])
-		return bv(fmt.Sprintf("(and (= (str.len %s) (str.len %s)) (forall ((i Int)) (=> (and (<= 0 i) (< i (str.len %s))) (= (str.at %s i) (str.at %s i)))))", a.S, b.S, a.S, a.S, b.S))
+		return bv(fmt.Sprintf("(and (= (gs.len %s) (gs.len %s)) (forall ((i Int)) (=> (and (<= 0 i) (< i (gs.len %s))) (= (gs.at %s i) (gs.at %s i)))))", a.S, b.S, a.S, a.S, b.S))
 	case "int", "byte", "rune", "int64", "uint32", "uint64", "uint":
 		return fx.evalSpec(env, x.Args[0])
 	case "any":
